@@ -3,15 +3,16 @@
    three rules whose effect is not a plain push (the start rule, continuedJsonpath with its node chain,
    jsonpathFilter with its save/load of the parameter list) are proved by hand in the same logic.
    Result: replaying the tokens of any successful match never reaches a crash site of the action model. *)
-From JP Require Import Peg Grammar Text Tree Actions PegFacts ParseFacts ErrPos StackLogic StackActs StackCheck.
+From JP Require Import Peg Grammar Text Tree Actions Eval WF PegFacts ParseFacts ErrPos StackLogic TreeWf StackActs StackCheck.
 From Coq Require Import Lia.
 Open Scope list_scope.
+Open Scope nat_scope.
 
 Definition summaries : list summary := [
   (*  0 expression *) SNone;
   (*  1 END *) SPush CAny [];
   (*  2 jsonpath *) SPush CInit [TNode];
-  (*  3 jsonpathParameter *) SPush CEmpty [TRooted];
+  (*  3 jsonpathParameter *) SPush CEmpty [TRootedH];
   (*  4 continuedJsonpath *) SChain;
   (*  5 rootNode *) SPush CInv [TNode];
   (*  6 parameterRootNode *) SPush CAny [TRooted];
@@ -47,12 +48,12 @@ Definition summaries : list summary := [
   (* 36 logicOr *) SPush CAny [];
   (* 37 logicAnd *) SPush CAny [];
   (* 38 logicNot *) SPush CAny [];
-  (* 39 comparator *) SPush CInv [TQuery];
+  (* 39 comparator *) SPush CInv [TQueryRaw];
   (* 40 qParam *) SPush CInv [TCP];
   (* 41 qNumericParam *) SPush CInv [TCP];
   (* 42 qLiteral *) SPush CAny [TLit];
   (* 43 singleJsonpathFilter *) SPush CInv [TCP];
-  (* 44 jsonpathFilter *) SPush CInv [TPQ; TBool];
+  (* 44 jsonpathFilter *) SOperand;
   (* 45 lNumber *) SPush CAny [TLit];
   (* 46 lBool *) SPush CAny [TLit];
   (* 47 lString *) SPush CAny [TLit];
@@ -80,13 +81,14 @@ Definition check_rule (r : nat) : bool :=
   | Some body =>
       match summary_of r with
       | SPush c tys =>
-          if Nat.eqb r 44 then true
+          if Nat.eqb r 43 then true
           else match check c body init_a with
                | Some res => leqr res (Some (mkA (rev tys) false))
                | None => false
                end
       | SBot => match check CAny body init_a with Some None => true | _ => false end
       | SChain => Nat.eqb r 4
+      | SOperand => Nat.eqb r 44
       | SNone => true
       end
   end.
@@ -118,17 +120,18 @@ Section Rules.
   Qed.
 
   (* rules the checker handles *)
-  Lemma rule_step f r : Rules f -> r <> 4 -> r <> 44 -> check_rule r = true -> Sem (S f) r (summary_of r).
+  Lemma rule_step f r : Rules f -> r <> 4 -> r <> 43 -> r <> 44 -> check_rule r = true -> Sem (S f) r (summary_of r).
   Proof.
-    intros HR N4 N44 Hc. unfold check_rule in Hc.
+    intros HR N4 N43 N44 Hc. unfold check_rule in Hc.
     destruct (nth_error G r) as [body|] eqn:En.
-    - destruct (summary_of r) as [c tys| | |] eqn:Es; cbn [StackCheck.Sem].
-      + apply Nat.eqb_neq in N44. rewrite N44 in Hc.
+    - destruct (summary_of r) as [c tys| | | |] eqn:Es; cbn [StackCheck.Sem].
+      + apply Nat.eqb_neq in N43. rewrite N43 in Hc.
         destruct (check c body init_a) as [res|] eqn:Ec; [|discriminate].
         intros ps sv pr Hh. eapply tr_ref; [exact En|].
         eapply tr_conseq; [| |exact (check_sound f HR body c init_a res Ec ps sv pr Hh)].
         * intros z. apply at_Gam.
         * intros z. apply (Gres_leq _ _ _ res (Some (mkA (rev tys) false))). exact Hc.
+      + apply Nat.eqb_eq in Hc. contradiction.
       + apply Nat.eqb_eq in Hc. contradiction.
       + destruct (check CAny body init_a) as [[res|]|] eqn:Ec; try discriminate.
         intros st0. eapply tr_ref; [exact En|].
@@ -149,92 +152,165 @@ Section Rules.
   Qed.
 
   (* ---------- continuedJsonpath: the node chain ---------- *)
-  Lemma chain_fold : forall nodes root, exists root',
-    fold_left chain_step (map INode nodes) (AOk root) = AOk root' /\ rootedb root' = rootedb root.
+  Lemma nwf_split n : nwf n = true <-> wf_node n = true /\ vgc n = true.
+  Proof. unfold nwf. apply andb_true_iff. Qed.
+
+  Lemma chain_fold : forall nodes root, nwf root = true -> Forall (fun n => nwf n = true) nodes -> exists root',
+    fold_left chain_step (map INode nodes) (AOk root) = AOk root' /\ rootedb root' = rootedb root /\ nwf root' = true.
   Proof.
-    induction nodes as [|a nodes IH]; intros root; cbn [map fold_left].
-    - exists root. split; reflexivity.
-    - destruct a as [k bb nx].
+    induction nodes as [|a nodes IH]; intros root Hr Hn; cbn [map fold_left].
+    - exists root. split; [reflexivity|split; [reflexivity|exact Hr]].
+    - inversion Hn as [|? ? Ha Hrest]; subst.
+      apply nwf_split in Hr. destruct Hr as [Hr1 Hr2]. pose proof Ha as Ha'. apply nwf_split in Ha'. destruct Ha' as [Ha1 Ha2].
+      assert (Happ : nwf (append_deep root a) = true).
+      { apply nwf_split. split; [apply wf_append_deep; assumption|apply vgc_append_deep; assumption]. }
+      destruct a as [k bb nx].
       destruct k; cbn [chain_step abind];
-        match goal with
-        | |- exists r, fold_left _ _ (AOk ?new) = _ /\ _ =>
-            destruct (IH new) as (r' & E & R); exists r'; split; [exact E|rewrite R]
-        end;
-        try apply rootedb_append_deep.
-      change (rootedb (clear_acc (update_vg root)) = rootedb root).
+        try (destruct (IH _ Happ Hrest) as (r' & E & R & W); exists r'; split; [exact E|split; [rewrite R; apply rootedb_append_deep|exact W]]).
+      (* an aggregate takes the chain so far as its parameter *)
+      assert (Hagg : nwf (Node (KAgg f (clear_acc (update_vg root))) bb nx) = true).
+      { apply nwf_split. cbn [wf_node vgc single_kind orb] in *. split.
+        - apply andb_true_iff in Ha1. destruct Ha1 as [_ Hnx]. rewrite wf_clear_acc, wf_update_vg, Hr1. exact Hnx.
+        - exact Ha2. }
+      destruct (IH _ Hagg Hrest) as (r' & E & R & W). exists r'. split; [exact E|]. split; [|exact W].
+      rewrite R. change (rootedb (clear_acc (update_vg root)) = rootedb root).
       rewrite rootedb_clear_acc. apply rootedb_update_vg.
   Qed.
 
   Definition chainJ (x : node) sv pr : asrt :=
-    fun y => exists nodes, snd y = mk (INode x :: map INode nodes) sv pr.
+    fun y => exists nodes, snd y = mk (INode x :: map INode nodes) sv pr /\ Forall (fun n => nwf n = true) nodes.
 
   Lemma chain_call f e x sv pr : Rules f -> check CInv e init_a = Some (Some (mkA [TNode] false)) ->
     tr f e (chainJ x sv pr) (chainJ x sv pr).
   Proof.
-    intros HR Hc. apply tr_pre_ex. intros x0 (nodes & Hs).
+    intros HR Hc. apply tr_pre_ex. intros x0 (nodes & Hs & Hn).
     eapply tr_conseq; [| |exact (call_rule f e CInv _ (INode x :: map INode nodes) sv pr HR Hc ltac:(intros H; discriminate H))].
     - intros z ->. exact Hs.
     - intros z (vals & Ht & Hs1 & _). cbn [a_stk] in Ht.
       inversion Ht as [|v ? vs ? Hv Hvs]; subst. inversion Hvs; subst.
-      destruct v; try discriminate Hv. exists (nodes ++ [n]). rewrite Hs1. cbn [rev app]. rewrite map_app. reflexivity.
+      destruct v; try discriminate Hv. exists (nodes ++ [n]). split.
+      + rewrite Hs1. cbn [rev app]. rewrite map_app. reflexivity.
+      + apply Forall_app. split; [exact Hn|]. constructor; [exact Hv|constructor].
   Qed.
 
   Lemma rule4 f : Rules f -> Sem (S f) 4 SChain.
   Proof.
-    intros HR x sv pr. eapply tr_ref; [reflexivity|].
+    intros HR x sv pr Hx. eapply tr_ref; [reflexivity|].
     eapply tr_seq with (R := chainJ x sv pr).
     { eapply tr_conseq; [| |apply tr_star with (J := chainJ x sv pr)].
-      - intros z Hz. exists []. exact Hz.
+      - intros z Hz. exists []. split; [exact Hz|constructor].
       - intros z Hz. exact Hz.
       - apply chain_call; [exact HR|reflexivity]. }
     eapply tr_seq with (R := chainJ x sv pr).
     { apply tr_star. apply chain_call; [exact HR|reflexivity]. }
     eapply tr_seq with (R := chainJ x sv pr).
-    { apply tr_pre_ex. intros x0 (nodes & Hs).
+    { apply tr_pre_ex. intros x0 (nodes & Hs & Hn).
       eapply tr_conseq; [| |exact (call_rule f (PRef 58) CAny (Some init_a) (INode x :: map INode nodes) sv pr HR eq_refl I)].
       - intros z ->. exact Hs.
       - intros z (vals & Ht & Hs1 & _). cbn [a_stk init_a] in Ht. inversion Ht; subst.
-        exists nodes. rewrite Hs1. cbn [rev]. rewrite app_nil_r. reflexivity. }
-    apply tr_act. intros cps b st (nodes & Hs). cbn [snd] in Hs. subst st.
+        exists nodes. split; [|exact Hn]. rewrite Hs1. cbn [rev]. rewrite app_nil_r. reflexivity. }
+    apply tr_act. intros cps b st (nodes & Hs & Hn). cbn [snd] in Hs. subst st.
     cbn [Actions.exec_action]. unfold set_node_chain. cbn [params mk].
+    assert (Hfin : forall r0, nwf r0 = true -> nwf (update_vg r0) = true /\ hvg (update_vg r0) = true).
+    { intros r0 H0. apply nwf_split in H0. destruct H0 as [H1 H2]. split; [|apply hvg_update_vg].
+      apply nwf_split. split; [rewrite wf_update_vg; exact H1|apply vgc_update_vg; exact H2]. }
     destruct nodes as [|n1 ns].
     - cbn [map abind update_root_vg params wpa]. unfold update_root_vg. cbn [params wpa].
-      exists (update_vg x). split; [reflexivity|]. intros Hr. rewrite rootedb_update_vg. exact Hr.
+      exists (update_vg x). destruct (Hfin x Hx) as [F1 F2]. repeat split; try assumption.
+      intros Hr. rewrite rootedb_update_vg. exact Hr.
     - change (INode n1 :: map INode ns) with (map INode (n1 :: ns)).
-      destruct (chain_fold (n1 :: ns) x) as (root' & E & R).
+      destruct (chain_fold (n1 :: ns) x Hx Hn) as (root' & E & R & W).
       cbn [map] in *. rewrite E. cbn [abind]. unfold update_root_vg, with_params. cbn [params saved proot wpa].
-      exists (update_vg root'). split; [reflexivity|]. intros Hr. rewrite rootedb_update_vg, R. exact Hr.
+      exists (update_vg root'). destruct (Hfin root' W) as [F1 F2]. repeat split; try assumption.
+      intros Hr. rewrite rootedb_update_vg, R. exact Hr.
   Qed.
+
   (* ---------- jsonpathFilter: the parameter list is saved, the inner path parsed on an empty list, and
      the saved list restored under it ---------- *)
-  Lemma rule44 f : Rules f -> Sem (S f) 44 (SPush CInv [TPQ; TBool]).
+  Lemma operand_ok nd : nwf nd = true -> hvg nd = true ->
+    pqwf (PqRoot (clear_acc (delete_root nd))) = true /\ pqwf (PqCur (clear_acc (delete_root nd))) = true.
+  Proof.
+    intros Hn Hh. apply nwf_split in Hn. destruct Hn as [H1 H2].
+    assert (H : nwf (clear_acc (delete_root nd)) && hvg (clear_acc (delete_root nd)) = true).
+    { apply andb_true_iff. split.
+      - apply nwf_split. split; [rewrite wf_clear_acc; apply wf_delete_root; exact H1|rewrite vgc_clear_acc; apply vgc_delete_root; exact H2].
+      - rewrite hvg_clear_acc. apply hvg_delete_root. exact Hh. }
+    split; exact H.
+  Qed.
+
+  Lemma rule44 f : Rules f -> Sem (S f) 44 SOperand.
   Proof.
     intros HR ps sv pr Hinv. cbn [holds] in Hinv. eapply tr_ref; [reflexivity|].
     eapply tr_seq with (R := at_ (save_params (mk ps sv pr))).
     { apply tr_act. intros cps b st Hs. unfold at_ in Hs. cbn [snd] in Hs. subst st.
       cbn [Actions.exec_action wpa]. reflexivity. }
+    assert (Hfin : forall (cps : list N) (b : nat) n ps0 sv0,
+              has_ty (INode n) TRootedH = true ->
+              wpa (do (nd, st1) <- pop_node (mk (ps0 ++ rev [INode n]) sv0 pr);
+                   match node_kind (innermost nd) with
+                   | KRoot => AOk (push (IBool true) (push (IPQ (PqRoot (clear_acc (delete_root nd)))) st1))
+                   | KCurrent => AOk (push (IBool false) (push (IPQ (PqCur (clear_acc (delete_root nd)))) st1))
+                   | _ => AOk st1
+                   end)
+                  (fun st' => exists p b0, snd (cps, b, st') = mk (ps0 ++ [IPQ p; IBool b0]) sv0 pr /\ pq_ok p b0)).
+    { intros cps b n ps0 sv0 Hv. cbn [has_ty] in Hv. apply andb_true_iff in Hv. destruct Hv as [Hv Hh].
+      apply andb_true_iff in Hv. destruct Hv as [Hn Hroot]. unfold rootedb in Hroot.
+      destruct (operand_ok n Hn Hh) as [O1 O2].
+      unfold pop_node. rewrite pop_G. cbn [abind].
+      destruct (node_kind (innermost n)) eqn:Ek; try discriminate Hroot; cbn [wpa snd]; rewrite !push_G; cbn [rev app].
+      - exists (PqRoot (clear_acc (delete_root n))), true. split; [reflexivity|]. split; [exact O1|reflexivity].
+      - exists (PqCur (clear_acc (delete_root n))), false. split; [reflexivity|]. split; [exact O2|reflexivity]. }
     destruct ps as [|i ps'].
-    - (* nothing to save: by the invariant nothing was saved before either *)
-      rewrite (Hinv eq_refl). change (save_params (mk [] [] pr)) with (mk [] [] pr).
+    - rewrite (Hinv eq_refl). change (save_params (mk [] [] pr)) with (mk [] [] pr).
       eapply tr_seq; [exact (call_rule f (PRef 3) CEmpty _ [] [] pr HR eq_refl eq_refl)|].
       apply tr_act. intros cps b st (vals & Ht & Hs & _). cbn [snd a_stk] in *. subst st.
       inversion Ht as [|v ? vs ? Hv Hvs]; subst. inversion Hvs; subst.
-      destruct v; try discriminate Hv. cbn [has_ty] in Hv. unfold rootedb in Hv.
+      destruct v; try discriminate Hv.
       cbn [Actions.exec_action]. change (load_params (mk ([] ++ rev [INode n]) [] pr)) with (mk ([] ++ rev [INode n]) [] pr).
-      unfold pop_node. rewrite pop_G. cbn [abind].
-      destruct (node_kind (innermost n)); try discriminate Hv; cbn [wpa]; rewrite !push_G; eexists; (split; [|split; [reflexivity|discriminate]]);
-        repeat constructor.
+      apply (Hfin cps b); exact Hv.
     - change (save_params (mk (i :: ps') sv pr)) with (mk [] (sv ++ [i :: ps']) pr).
       eapply tr_seq; [exact (call_rule f (PRef 3) CEmpty _ [] (sv ++ [i :: ps']) pr HR eq_refl eq_refl)|].
       apply tr_act. intros cps b st (vals & Ht & Hs & _). cbn [snd a_stk] in *. subst st.
       inversion Ht as [|v ? vs ? Hv Hvs]; subst. inversion Hvs; subst.
-      destruct v; try discriminate Hv. cbn [has_ty] in Hv. unfold rootedb in Hv.
+      destruct v; try discriminate Hv.
       cbn [Actions.exec_action].
       assert (Hl : load_params (mk ([] ++ rev [INode n]) (sv ++ [i :: ps']) pr) = mk ((i :: ps') ++ rev [INode n]) sv pr).
       { unfold load_params, mk. cbn [saved params proot]. rewrite rev_app_distr. cbn [rev app]. rewrite rev_involutive. reflexivity. }
-      rewrite Hl. unfold pop_node. rewrite pop_G. cbn [abind].
-      destruct (node_kind (innermost n)); try discriminate Hv; cbn [wpa]; rewrite !push_G; eexists; (split; [|split; [reflexivity|discriminate]]);
-        repeat constructor.
+      rewrite Hl. apply (Hfin cps b); exact Hv.
+  Qed.
+
+  (* ---------- singleJsonpathFilter: the operand of a comparison must be single-valued ---------- *)
+  Lemma single_of_head n : nwf n = true -> hvg n = true -> vgroup (node_basic n) = false -> single_chain n = true.
+  Proof.
+    intros Hn Hh Hv. apply nwf_split in Hn. destruct Hn as [_ Hvgc]. apply vgc_single; [exact Hvgc|].
+    unfold hvg in Hh. rewrite Hv in Hh. destruct (chain_vg n); [discriminate|reflexivity].
+  Qed.
+
+  Lemma rule43 f : Rules f -> Sem (S f) 43 (SPush CInv [TCP]).
+  Proof.
+    intros HR ps sv pr Hinv. eapply tr_ref; [reflexivity|].
+    pose proof (HR 44) as H44. change (summary_of 44) with SOperand in H44. cbn [StackCheck.Sem] in H44.
+    eapply tr_seq with (R := fun y => exists p b, snd y = mk (ps ++ [IPQ p; IBool b]) sv pr /\ pq_ok p b).
+    { eapply tr_cap with (ne := false) (Q' := fun y => exists p b, snd y = mk (ps ++ [IPQ p; IBool b]) sv pr /\ pq_ok p b).
+      - exact (H44 ps sv pr Hinv).
+      - discriminate.
+      - intros cps0 b0 st' cps' b' H _. exact H. }
+    apply tr_act. intros cps b st (p & b0 & Hs & Hp & Hb). cbn [snd] in Hs. subst st.
+    cbn [Actions.exec_action].
+    change (ps ++ [IPQ p; IBool b0]) with (ps ++ rev [IBool b0; IPQ p]). rewrite pop_G. cbn [abind]. rewrite pop_G. cbn [abind].
+    unfold pqwf in Hp.
+    assert (Hdone : forall (q : pquery) (lit : bool) n, nwf n = true -> hvg n = true ->
+              node_basic n = node_basic n -> cpwf (CP q lit) = true ->
+              Gam ps sv pr (mkA (rev [TCP]) false) (cps, b, mk (ps ++ rev [ICParam (CP q lit)]) sv pr)).
+    { intros q lit n _ _ _ Hq. exists [ICParam (CP q lit)]. cbn [a_stk a_cap rev app snd fst]. split; [|split; [reflexivity|discriminate]].
+      constructor; [exact Hq|constructor]. }
+    destruct p as [v|n|n]; [contradiction| |]; apply andb_true_iff in Hp; destruct Hp as [Hn Hh]; subst b0.
+    - destruct (vgroup (node_basic n)) eqn:Ev; [exact I|]. cbn [wpa]. rewrite push_G.
+      apply (Hdone _ _ n Hn Hh eq_refl). cbn [cpwf negb andb].
+      pose proof (single_of_head n Hn Hh Ev) as Hsc. apply nwf_split in Hn. destruct Hn as [Hw _]. rewrite Hw, Hsc. reflexivity.
+    - destruct (vgroup (node_basic n)) eqn:Ev; [exact I|]. cbn [wpa]. rewrite push_G.
+      apply (Hdone _ _ n Hn Hh eq_refl). cbn [cpwf negb andb].
+      pose proof (single_of_head n Hn Hh Ev) as Hsc. apply nwf_split in Hn. destruct Hn as [Hw _]. rewrite Hw, Hsc. reflexivity.
   Qed.
 
   (* ---------- every rule, at every fuel ---------- *)
@@ -243,15 +319,16 @@ Section Rules.
     induction f as [|f IH]; intros r.
     - destruct (summary_of r); cbn [StackCheck.Sem]; intros; try exact I; apply tr_0.
     - destruct (Nat.eq_dec r 4) as [->|N4]; [exact (rule4 f IH)|].
+      destruct (Nat.eq_dec r 43) as [->|N43]; [exact (rule43 f IH)|].
       destruct (Nat.eq_dec r 44) as [->|N44]; [exact (rule44 f IH)|].
-      apply rule_step; [exact IH|exact N4|exact N44|].
+      apply rule_step; [exact IH|exact N4|exact N43|exact N44|].
       destruct (Nat.lt_ge_cases r (List.length G)) as [Hlt|Hge].
       + pose proof grammar_checks as Hg. rewrite forallb_forall in Hg. apply Hg. apply in_seq. lia.
       + unfold check_rule. assert (En : nth_error G r = None) by (apply nth_error_None; exact Hge). rewrite En. reflexivity.
   Qed.
 
   (* ---------- the start rule ---------- *)
-  Lemma rule0 f : tr (S f) (PRef 0) (at_ ps_init) (fun y => proot (snd y) <> None).
+  Lemma rule0 f : tr (S f) (PRef 0) (at_ ps_init) (fun y => exists t, proot (snd y) = Some t /\ wf_node t = true).
   Proof.
     pose proof (rules_all f) as HR. eapply tr_ref; [reflexivity|]. apply tr_alt.
     - (* jsonpath END {0} *)
@@ -259,7 +336,9 @@ Section Rules.
       eapply tr_seq; [exact (check_sound f HR (PRef 1) CInit (mkA [TNode] false) _ eq_refl [] [] None (conj eq_refl eq_refl))|].
       apply tr_act. intros cps b st (vals & Ht & Hs & _). cbn [snd a_stk] in *. subst st.
       inversion Ht as [|v ? vs ? Hv Hvs]; subst. inversion Hvs; subst. destruct v; try discriminate Hv.
-      cbn [Actions.exec_action]. unfold pop_node. rewrite pop_G. cbn [abind wpa proot snd]. discriminate.
+      cbn [Actions.exec_action]. unfold pop_node. rewrite pop_G. cbn [abind wpa proot snd].
+      eexists. split; [reflexivity|]. cbn [has_ty] in Hv. apply nwf_split in Hv. destruct Hv as [Hw _].
+      rewrite wf_set_ctext_deep. apply wf_delete_root. exact Hw.
     - (* the catch-all alternative always ends in action 1 *)
       eapply tr_seq with (R := fun _ => True).
       { apply tr_opt; [|trivial].
@@ -288,8 +367,21 @@ Section Rules.
       destruct fuel as [|f]; [discriminate|].
       pose proof (rule0 f (S f) (le_n _) _ _ _ _ _ Er input [] 0 ps_init (le_n _) eq_refl) as Hw.
       destruct (xrun cfg parse_float regex_ok toks input [] 0 ps_init) as [x|err|site]; cbn [abind wp] in *.
-      + destruct (proot (snd x)); [discriminate|contradiction Hw; reflexivity].
+      + destruct Hw as (t & Ht & _). rewrite Ht. discriminate.
       + discriminate.
       + contradiction.
+  Qed.
+
+  (* every tree Parse returns is well formed: the evaluator theorems apply to it *)
+  Theorem parse_builds_wf input t :
+    parse_with cfg parse_float regex_ok G input = ParseOk t -> wf_node t = true.
+  Proof.
+    unfold parse_with, parse_from, peg_parse. generalize (parse_fuel input). intros fuel.
+    destruct (run G fuel (PRef 0) input 0) as [| |rest pos toks] eqn:Er; try discriminate.
+    rewrite execute_xrun.
+    destruct fuel as [|f]; [discriminate|].
+    pose proof (rule0 f (S f) (le_n _) _ _ _ _ _ Er input [] 0 ps_init (le_n _) eq_refl) as Hw.
+    destruct (xrun cfg parse_float regex_ok toks input [] 0 ps_init) as [x|err|site]; cbn [abind wp] in *; try discriminate.
+    destruct Hw as (t' & Ht & Hwf). rewrite Ht. intros H. inversion H; subst. exact Hwf.
   Qed.
 End Rules.
